@@ -287,6 +287,9 @@ def main(tier):
     from checks import layerc
     layerc.blocks(c, tier, 0.35 if quick else 1.0)
     layerc.inlines(c, tier, 0.3 if quick else 1.0)
+    # the FINAL tree: Parse_valid_partial / Parse_shape (Props/Parse.v) about Model/Parse.v parse_document_model, the whole
+    # parser as one function, tied end to end to parse_document here
+    layerc.whole(c, tier, 0.25 if quick else 0.5)
 
     # ---- correspondence nodes.table: the whole can_contain_type table, block, contains_inlines
     kinds = ast_kinds()
@@ -429,7 +432,7 @@ def main(tier):
     if recs:
         c.cov["samples"].append({"doc": recs[0].doc[:200], "opts": docgen.opts_token(recs[0].opts), "validator": recs[0].valid, "model": mm.get(id(recs[0]), "-")})
     c.cov["partial_clauses"] = [
-        "`forall input options, structurally_valid (parse options input)` is not proved (no Coq model of the block / inline parsers): it is evaluated on every tree the real parser returns in this run",
+        "`forall input options, structurally_valid (parse options input)` is proved in part: Model/Parse.v parse_document_model is the whole parser as one Coq function (tied end to end, correspondence parser.whole); Props/Parse.v Parse_valid_partial proves that its result is the composition (final_tree_sp) of a structurally valid block tree (Blocks_valid: containment, root, heading levels, table shape and column counts) with forests whose values are all inline kinds, and that the final tree satisfies the root, heading-level and table-shape clauses; NOT proved (Parse_valid_full_statement): the containment relation of Node::validate below the leaves (which inline may contain which; the children of a TableCell) and the column-count equation for the final tree - those are evaluated on every tree the real parser returns in this run",
         "the formatter clause is proved for the HTML and XML renderer models (valid, S2, S3 => Ok); for the CommonMark formatter it is observed only (no panic on any parser tree of this run)",
         "table builder: the arithmetic of try_opening_header / try_opening_row is modelled and proved; cell splitting (fn row) enters as a parameter",
         "links: see C04_links (acyclicity is not implied by link consistency)"]
